@@ -285,6 +285,28 @@ func propPoints(c Case, l geom.Layout) error {
 	if err := within("PointsCentroidFlat", xy.PointsCentroidFlat(l, flat), wx, wy, tx, ty, 2); err != nil {
 		return err
 	}
+	// the same points with EMPTY members in between: members without a position do
+	// not take part in the mean
+	var ends []int
+	for i := range ps {
+		if (i*7+len(ps))%3 == 0 {
+			ends = append(ends, i*l.Stride())
+		}
+		ends = append(ends, (i+1)*l.Stride())
+	}
+	ends = append(ends, len(flat))
+	mpe := geom.NewMultiPointFlat(l, flat, geom.NewMultiPointFlatOptionWithEnds(ends))
+	if mpe.NumPoints() <= len(ps) {
+		return fmt.Errorf("harness: MultiPoint with EMPTY members has %d members for %d points", mpe.NumPoints(), len(ps))
+	}
+	if err := within("MultiPointCentroid (with EMPTY members)", xy.MultiPointCentroid(mpe), wx, wy, tx, ty, 2); err != nil {
+		return err
+	}
+	if gote, err := xy.Centroid(mpe); err != nil {
+		return err
+	} else if err := within("Centroid(MultiPoint with EMPTY members)", gote, wx, wy, tx, ty, 2); err != nil {
+		return err
+	}
 	var pts []*geom.Point
 	for i := range ps {
 		pts = append(pts, geom.NewPointFlat(l, flat[i*l.Stride():(i+1)*l.Stride()]))
